@@ -8,6 +8,8 @@ import PycModel.Generated.FakeHeaders
 import PycModel.Spec.Expr
 import PycModel.Spec.Decl
 import PycModel.Spec.Stmt
+import PycModel.Spec.Lexical
+import PycModel.Spec.Scoping
 import PycModel.Generated.LexTables
 /-! Model driver: one request per line on stdin, one response per line on stdout. -/
 open PycModel PycModel.Proto
@@ -139,6 +141,38 @@ def handle (line : String) : String :=
   | ["cpp", hs] =>
     let fs : Cpp.FS := Generated.fakeFS.map fun d => ⟨d.name, d.guard, d.includes, d.hasBody⟩
     " ".intercalate (Cpp.pp fs (if hs.isEmpty then [] else hs.splitOn ","))
+  | ["c10", text] =>
+    match Spec.Lex.classify text.toList with
+    | some k => k.tokenClass
+    | none => "-"
+  | ["c04", "enum", len, lo, hi] =>
+    -- all well-formed histories of `len` events over 2 names (nesting depth <= 2), a probe of both
+    -- names after every event, x 4 file-scope prefixes
+    let names := ["T", "U"]
+    let alpha : List Spec.ScEv := [.openBlock, .closeBlock] ++ names.flatMap fun n =>
+      [.typedefName n, .object n, .func n, .tag n, .member n, .protoParam n]
+    let rec seqs : Nat → List (List Spec.ScEv)
+      | 0 => [[]]
+      | k+1 => (seqs k).flatMap fun s => alpha.map fun e => s ++ [e]
+    let prefixes : List (List Spec.ScEv) := [[], [.typedefName "T"], [.typedefName "T", .typedefName "U"], [.object "T", .typedefName "U"]]
+    let all := ((seqs len.toNat!).flatMap fun s => prefixes.map fun p => (p, s)).toArray
+    let hi' := min hi.toNat! all.size
+    let idxs := (List.range (hi' - lo.toNat!)).map (· + lo.toNat!)
+    let depthOK (s : List Spec.ScEv) : Bool :=
+      (s.foldl (fun (acc : Nat × Bool) e => match e with
+        | .openBlock => (acc.1 + 1, acc.2 && acc.1 + 1 ≤ 2)
+        | .closeBlock => (acc.1 - 1, acc.2)
+        | _ => acc) (0, true)).2
+    let cases := idxs.filterMap fun i =>
+      let (p, s) := all[i]!
+      -- close whatever is still open at the end
+      let opens := s.foldl (fun (d : Int) e => match e with | .openBlock => d + 1 | .closeBlock => d - 1 | _ => d) 0
+      let s := s ++ List.replicate opens.toNat .closeBlock
+      if !(Spec.wellFormed s (Spec.after (p ++ [.openBlock]) [[]]) 0) || !depthOK s then none else
+      let withProbes := s.foldl (fun (acc : List Spec.ScEv × Nat) e =>
+        (acc.1 ++ [e, .probe "T" (acc.2 % 4), .probe "U" ((acc.2 + 1) % 4)], acc.2 + 1)) ([.probe "T" (i % 4), .probe "U" ((i + 2) % 4)], i)
+      some (Spec.histCase p withProbes.1)
+    toString all.size ++ "\t" ++ "\t".intercalate (cases.map fun (t, d) => rec [t, d])
   | op :: _ => "BADOP " ++ op
   | [] => "BADOP"
 
